@@ -353,6 +353,25 @@ def _from_lin(c, d):
     return ('lin', c, items)
 
 
+def _nonneg_int(e):
+    """An integer expression that is never negative by what it is made of: widths, sizes, logarithms, lengths, their sums and products."""
+    k = e[0]
+    if k == 'const':
+        return isinstance(e[1], int) and not isinstance(e[1], bool) and e[1] >= 0
+    if k == 'call' and e[1] in (('name', 'exact_log2'), ('name', 'ceil_log2'), ('name', 'len')):
+        return True
+    if k in ('attr', 'name'):
+        nm = e[2] if k == 'attr' else e[1]
+        return nm.lstrip("_").endswith("width") or nm.lstrip("_") in ("size", "granularity", "alignment", "granularity_bits")
+    if k == 'lin':
+        return e[1] >= 0 and all(co > 0 and _nonneg_int(t) for t, co in e[2])
+    if k == 'nary' and e[1] == '*':
+        return all(_nonneg_int(x) for x in e[2])
+    if k == 'bin' and e[1] in ('//', '**', '+', '*'):
+        return _nonneg_int(e[2]) and _nonneg_int(e[3])
+    return False
+
+
 def _mk_nary(op, xs):
     flat = []
     for x in xs:
@@ -794,6 +813,11 @@ def _norm1(e, ctx):
                 if c == 0 and d and all(v < 0 for v in d.values()):
                     return ('ceildiv', _from_lin(0, {tt: -v for tt, v in d.items()}), t[3])
         return None
+    if k == 'or' and len(e[1]) == 2 and ('const', 1) in e[1]:
+        # `n or 1` for a count that cannot be negative (a sum of widths and logarithms) is max(1, n)
+        x_ = e[1][0] if e[1][1] == ('const', 1) else e[1][1]
+        if e[1][1] == ('const', 1) and _nonneg_int(x_):
+            return ('call', ('name', 'max'), (('const', 1), x_), ())
     if k in ('and', 'or'):
         flat = []
         for x in e[1]:
